@@ -50,6 +50,11 @@ CLAIMED = {
         note="Bounded: graphs W<=2,N<=2 (quick) / W<=3,N<=3 (thorough), Buffered N<=3/5, cap 0..2; random W<=4, caps {0,1,2,3,16}. Thread exit is observed via the drop of the upstream iterator; hang = no exit signal within 1.5-10 s for microsecond work (timing-only verdicts re-run once). std mpsc semantics trusted.",
         technique="TLA+ specs of Pipe (drop, panic+hook) and Buffered model-checked with TLC incl. negative controls; graph edge covers replayed as controlled schedules; recorded runs judged by TLC monitor/trace specs",
         ref="6 C09"),
+    "C15": dict(
+        text="spec/EditWord.tla gives, per edit kind, the exact set of results one edit_word call may return (candidate positions w.r.t. the exclusion set, <bow>/<eow> context lookup, splice, re-indexing) and, separately, the property-layer relation OneEdit (one edit of an enabled kind at a non-excluded position with a table string, exclusions re-indexed and extended). MC_EditWord explores chains of calls and checks exclusions inside the word, survival of excluded symbols (action property) and mechanism => property. Binding: TLC-enumerated (word, exclusion set, kinds, table) cases are run on the real edit_word with the real InsertEdits/ReplaceEdits context tables over 6 random streams and chains of 3, plus direct provider calls at index 0/last/len/beyond; random words/tables/chains; Trace_EditWord checks no panic, OneEdit, exclusions within the word, excluded characters survive; membership in the exact successor set is the mechanism layer.",
+        note="Bounded: words <=3/4 symbols exhaustively, random <=7 symbols, tables <=14 contexts. The harness is built with overflow checks (as cargo test), so arithmetic faults surface as panics. Weighted sampling of edit strings is abstracted to 'any listed string'.",
+        technique="TLA+ successor relation of edit_word model-checked with TLC; TLC-enumerated cases replayed over several random streams; recorded calls validated by a TLC trace spec",
+        ref="6 C15"),
     "C16": dict(
         text="spec/Windows.tla is the window stepping machine (one action per emitted window; CharStep/ByteStep with count_until as folds); TLC explores it for all texts up to 5 characters with byte lengths 1..4 x max 0..9 x context 0..3 x {char, byte} and checks partial tiling in every state, the context bound, full tiling at the end, failure only if a character is wider than the window, termination. Binding: all texts up to 3/4 characters over 6 slots (1-4 byte letters, 8-byte flag cluster, e+combining acute) x the same configurations x {char, byte, full} x both modes are replayed on the real windows(); random real texts up to 60 characters; Trace_Windows checks error/success rules, tiling, context containment and size, byte boundaries = prefix sums of the character boundaries, reported string = context slice, and (mechanism) equality with the stepping machine.",
         note="Bounded as stated; the empty text is skipped. View trusted (unicode-segmentation cluster lengths). A hang is caught by the 5 s per-case watchdog.",
